@@ -723,3 +723,9 @@ PROPERTIES["C14"]["mirsym"].append(
       "AddressedIngressEngine::recv_logical_message (REQ / REP / DEALER receive path, nested ReadyPipeQueue::pop coroutine) on an empty queue; RCVTIMEO in {-1, 0, any positive value (symbolic)}; recording timer; then: a 2-frame message arrives / still empty / timer elapsed, and a message arriving after a refused or timed-out call is read back",
       budget={"quick": 300, "thorough": 400},
       required_covers=["c14.ingress-recv.wouldblock", "c14.ingress-recv.completed-after-wait", "c14.ingress-recv.still-waiting", "c14.ingress-recv.timed-out"]))
+PROPERTIES["C14"]["mirsym"].append(
+    M("c14_dealer_send_wait_loops", "d_c14", "dealer_send_wait_loops",
+      "DealerSocket::send_multipart while another task's frame-by-frame send is in progress, and DealerSocket::queue_message_or_error on a full pending queue (coroutine MIR incl. the biased tokio::select! against the closing signal); SNDTIMEO any positive value (symbolic), symbolic monotone clock read at every timer arming, tokio::time::timeout / timeout_at recording their expiry; up to 2 wake-ups that do not end the wait (the other task finishes its message and starts the next; queue activity with the queue full again), then the wait ends or the timer fires",
+      params={"quick": {"rounds": 2}, "thorough": {"rounds": 3}}, budget={"quick": 300, "thorough": 600},
+      required_covers=["c14.dealer-wait.woken-without-progress", "c14.dealer-wait.completed-after-wait", "c14.dealer-wait.timed-out"]))
+PROPERTIES["C14"]["manifest"]["text"] += " DEALER: the two wait loops of the send path (behind another task's multi-frame send; for room in the pending queue) arm timers that expire SNDTIMEO after the call started, however often the waiter is woken without getting what it waits for."
